@@ -6,6 +6,7 @@
   Core Lean only.
 -/
 import Mpir.Gen.MulDispatch
+import Mpir.Model.MulAlgo
 namespace Mpir.MulDispatch
 open Mpir.Skel Mpir.Gen
 
@@ -122,16 +123,16 @@ def domainOk (P : Params) (e : Ev) : Bool :=
       mul.c:112 multiplies a MUL_BASECASE_MAX_UN-limb chunk by vn limbs with the chunk as the longer operand;
     * mul_n.c:296-298 / :356-358  stack workspaces sized by the *_LIMIT constants;
     * each algorithm is reached only at or above its threshold, which must be at least its minimum size
-      (kara 2, toom3 17 (and 19 so that the unbalanced Toom-3 family of mul.c:180-208 gets an ≥ 20),
+      (kara 3: mpn_kara_mul_n recurses on n/2 when n - n/2 ≥ threshold, and needs n/2 ≥ 2; toom3 17 (and 19 so that the unbalanced Toom-3 family of mul.c:180-208 gets an ≥ 20),
       toom4 MPN_TOOM4_MUL_N_MINSIZE, toom8h 86, toom8 squaring MPN_TOOM8_SQR_N_MINSIZE). -/
 def Valid (P : Params) : Prop :=
-  2 ≤ P.MUL_KARATSUBA_THRESHOLD ∧ P.MPN_KARA_MUL_N_MINSIZE ≤ P.MUL_KARATSUBA_THRESHOLD ∧
+  3 ≤ P.MUL_KARATSUBA_THRESHOLD ∧ P.MPN_KARA_MUL_N_MINSIZE ≤ P.MUL_KARATSUBA_THRESHOLD ∧
   P.MUL_KARATSUBA_THRESHOLD ≤ P.MUL_KARATSUBA_THRESHOLD_LIMIT ∧
   1 ≤ P.MUL_BASECASE_MAX_UN ∧ P.MUL_KARATSUBA_THRESHOLD ≤ P.MUL_BASECASE_MAX_UN + 1 ∧
   19 ≤ P.MUL_TOOM3_THRESHOLD ∧ P.MUL_TOOM3_THRESHOLD ≤ P.MUL_TOOM3_THRESHOLD_LIMIT ∧
   15 ≤ P.MUL_TOOM4_THRESHOLD ∧ P.MPN_TOOM4_MUL_N_MINSIZE ≤ P.MUL_TOOM4_THRESHOLD ∧
   86 ≤ P.MUL_TOOM8H_THRESHOLD ∧ P.MPN_TOOM8H_MUL_MINSIZE ≤ P.MUL_TOOM8H_THRESHOLD ∧
-  2 ≤ P.SQR_KARATSUBA_THRESHOLD ∧ P.MPN_KARA_SQR_N_MINSIZE ≤ P.SQR_KARATSUBA_THRESHOLD ∧
+  3 ≤ P.SQR_KARATSUBA_THRESHOLD ∧ P.MPN_KARA_SQR_N_MINSIZE ≤ P.SQR_KARATSUBA_THRESHOLD ∧
   17 ≤ P.SQR_TOOM3_THRESHOLD ∧ P.SQR_TOOM3_THRESHOLD ≤ P.SQR_TOOM3_THRESHOLD_LIMIT ∧
   P.MPN_TOOM4_SQR_N_MINSIZE ≤ P.SQR_TOOM4_THRESHOLD ∧ 1 ≤ P.SQR_TOOM4_THRESHOLD ∧
   P.MPN_TOOM8_SQR_N_MINSIZE ≤ P.SQR_TOOM8_THRESHOLD ∧ 1 ≤ P.SQR_TOOM8_THRESHOLD ∧
@@ -139,6 +140,25 @@ def Valid (P : Params) : Prop :=
   P.GMP_LIMB_BITS = 64
 
 instance (P : Params) : Decidable (Valid P) := by unfold Valid; infer_instance
+
+/-- Value computed by one recorded call on operand values `u`, `v` — for the algorithms that have a value-level
+    model in `Mpir.MulAlgo` (recursive calls replaced by the exact product).  `none`: not modelled at value level
+    (basecases: leaf-kernel theorems; toom8h / toom8 squaring / FFT: differential run only). -/
+def callValue (P : Params) (e : Ev) (u v : Nat) : Option Nat :=
+  match sizeArgs e with
+  | [n] =>
+    if e.name = "mpn_kara_mul_n" then MulAlgo.kara_mul_n P.MUL_KARATSUBA_THRESHOLD.toNat u v n.toNat
+    else if e.name = "mpn_toom3_mul_n" then some (MulAlgo.toom3_mul_n (· * ·) u v n.toNat)
+    else if e.name = "mpn_toom4_mul_n" then some (MulAlgo.toom4_mul_n (· * ·) u v n.toNat)
+    else none
+  | [an, bn] =>
+    if e.name = "mpn_toom3_mul" then some (MulAlgo.toom3_mul (· * ·) u an.toNat v bn.toNat)
+    else if e.name = "mpn_toom42_mul" then some (MulAlgo.toom42_mul (· * ·) u an.toNat v bn.toNat)
+    else if e.name = "mpn_toom32_mul" then some (MulAlgo.toom32_mul (· * ·) u an.toNat v bn.toNat)
+    else if e.name = "mpn_toom4_mul" then some (MulAlgo.toom4_mul (· * ·) u an.toNat v bn.toNat)
+    else if e.name = "mpn_toom53_mul" then some (MulAlgo.toom53_mul (· * ·) u an.toNat v bn.toNat)
+    else none
+  | _ => none
 
 /-- every recorded call of a trace is inside its callee's size domain -/
 def AllOk (P : Params) (tr : List Ev) : Prop := ∀ e ∈ tr, domainOk P e = true
